@@ -140,7 +140,7 @@ KEY_X = secp.xonly(secp.gen(12345))
 
 @st.composite
 def tap_cmd(draw):
-    kind = draw(st.sampled_from(['valid', 'counts', 'key', 'txs', 'junk', 'index']))
+    kind = draw(st.sampled_from(['valid', 'counts', 'key', 'txs', 'junk', 'index', 'consistent', 'consistent']))
     n = draw(st.integers(1, 6))
     scripts = ['0x' + draw(st.sampled_from([b'\x51', b'\x75\x51', R.push_enc(KEY_X) + b'\xac'])).hex() for _ in range(n)]
     argv = [KEY_X.hex(), str(n)] + scripts
@@ -171,6 +171,26 @@ def tap_cmd(draw):
             argv += [draw(st.sampled_from(['0', str(n - 1), str(n), '-1', 'abc']))] + [junk_text(draw) for _ in range(draw(st.integers(0, 2)))]
         if draw(st.integers(0, 3)) == 0:
             argv = [draw(st.sampled_from(['--sig=', '--sig=zz', '--sig=' + '00' * 64, '--sig=' + '11' * 200, '--privkey=00']))] + argv
+    elif kind == 'consistent':
+        # a funding output that really commits to the (single-leaf) tree, so that tap gets past its pubkey check into witness construction / sighash
+        sc = draw(st.sampled_from([b'\x75\x51', R.push_enc(KEY_X) + b'\xac']))
+        leaf = V.tapleaf(0xc0, sc)
+        q, par = secp.taproot_tweak_pub(KEY_X, leaf)
+        fund = T.Tx()
+        fund.vin = [dict(txid=bytes(32), n=0, script=b'\x51', seq=0xffffffff, wit=[])]
+        fund.vout = [dict(value=5000, spk=b'\x51\x20' + q)] + [dict(value=1, spk=b'\x51')] * draw(st.integers(0, 2))
+        tx = T.Tx()
+        nin = draw(st.sampled_from([1, 1, 2, 3]))
+        tx.vin = [dict(txid=bytes([i]) * 32, n=i, script=b'', seq=0xffffffff, wit=[]) for i in range(nin)]
+        k = draw(st.integers(0, nin - 1))
+        tx.vin[k]['txid'] = fund.txid()
+        tx.vin[k]['n'] = draw(st.sampled_from([0, 0, 0, 1, 5]))
+        tx.vout = [dict(value=1, spk=b'\x51')] * draw(st.integers(0, 2))
+        argv = ['--tx=' + tx.ser().hex(), '--txin=' + fund.ser().hex(), KEY_X.hex(), '1', '0x' + sc.hex()]
+        if draw(st.booleans()):
+            argv += ['0'] + [junk_text(draw) for _ in range(draw(st.integers(0, 2)))]
+        if draw(st.integers(0, 2)) == 0:
+            argv = [draw(st.sampled_from(['--sig=' + '00' * 64, '--sig=' + '11' * 65, '--sig=', '--sig=zz']))] + argv
     elif kind == 'junk':
         argv = [junk_text(draw) for _ in range(draw(st.integers(0, 5)))]
     elif kind == 'index':
